@@ -314,6 +314,9 @@ def finish(plan: Plan, results, tier, seed, t_start, checker_cmd):
         rule="one evaluation = one named obligation generated from /repo's current source; distinct = distinct obligation names",
     )
     coverage.update(plan.notes)
+    if level == "proof" and (violations or faults) and not undecided:
+        level = "other"
+        coverage["explanation"] = (plan.explanation + " | obligations refuted or faulted on this run; not a proof").strip()
     if undecided and level == "proof":
         level = "other"
         coverage["proof_lost"] = [ob.name for ob, _ in undecided]
